@@ -152,3 +152,25 @@ Theorem C03_end_to_end_position : forall D has_ns hcode rm rn rr re_ok ns p abs 
               (select_pos (fun pos => cmp_num o (of_Z (Z.of_nat pos)) (lit_f ds)) 1).
 Proof. exact C03_position_end_to_end. Qed.
 Print Assumptions C03_end_to_end_position.
+
+(* (P)[k] from the TEXT, P an ordered path (flat steps, optionally one final descendant step): the
+   k-th node of P in document order, nothing when k is out of range *)
+From XP.Proofs Require Import DocOrder EndToEndFlat EndToEndGroupNth.
+
+Theorem C03_end_to_end_group_nth : forall D has_ns hc rm rn rr,
+  hash_ok (hc D) (all_nodes D) ->
+  forall re_ok ns p abs steps ds,
+  path_syntax p -> steps_of p = (abs, steps) -> ordered_steps steps ->
+  xok (group_nth p ds) -> (List.length steps + 3 <= max_build_depth)%nat ->
+  (Z.abs (lit_Z ds) <= 2 ^ 53)%Z ->
+  exists q,
+    compile re_ok (print_min (group_nth p ds)) ns = Ok q /\
+    forall c, valid D c = true ->
+    exists l,
+      sorted_doc l /\ (forall n, In n l <-> path_den D has_ns steps (if abs then root_node else c) n) /\
+      select rm rn rr hc D has_ns q c = Val (pick_nth (lit_Z ds) l) /\
+      (forall x, (1 <= lit_Z ds)%Z -> nth_error l (Z.to_nat (lit_Z ds - 1)) = Some x ->
+         select rm rn rr hc D has_ns q c = Val [x]) /\
+      ((lit_Z ds < 1)%Z \/ (Z.of_nat (List.length l) < lit_Z ds)%Z -> select rm rn rr hc D has_ns q c = Val []).
+Proof. exact C03_group_nth_end_to_end. Qed.
+Print Assumptions C03_end_to_end_group_nth.
